@@ -273,9 +273,15 @@ impl<'p, W, R, T> CompilationScope<'p, W, R, T> {
             .iter_mut()
             .find(|f| !f.fulfilled && f.name == name && f.spec == spec)
         {
-            // todo check what happens if the fulfillment has a reference as well
             fref.fulfilled = true;
-            fref.cell_idx
+            let cell_idx = fref.cell_idx;
+            // the implementation may itself wait for other forward declarations: whoever uses the cell inherits them
+            let Some(Cell::Variable {
+                forward_requirements: cell_requirements,
+                ..
+            }) = self.cells.iter_mut().nth(cell_idx) else { unreachable!() };
+            cell_requirements.extend(forward_requirements);
+            cell_idx
         } else {
             let cell_idx = self.cells.ipush(Cell::Variable {
                 t: spec.xtype(),
@@ -523,8 +529,14 @@ impl<'p, W, R, T> CompilationScope<'p, W, R, T> {
         &mut self,
         refs: impl IntoIterator<Item = ForwardRefRequirement>,
     ) -> Result<(), CompilationError> {
-        for freq in refs {
-            let fref = &self.forward_ref(&freq);
+        let mut pending: Vec<_> = refs.into_iter().collect();
+        let mut seen = HashSet::new();
+        while let Some(freq) = pending.pop() {
+            if !seen.insert(freq) {
+                continue;
+            }
+            let owner = self.ancestor_at_depth(self.height - freq.ancestor_height);
+            let fref = &owner.forwards[freq.ref_idx];
             if !fref.fulfilled {
                 if freq.ancestor_height == self.height {
                     return Err(CompilationError::MissingForwardImplementation {
@@ -534,6 +546,10 @@ impl<'p, W, R, T> CompilationScope<'p, W, R, T> {
                 } else {
                     self.forward_requirements.insert(freq);
                 }
+            } else {
+                // a fulfilled declaration is only as ready as its implementation
+                let Cell::Variable { forward_requirements, .. } = &owner.cells[fref.cell_idx] else { unreachable!() };
+                pending.extend(forward_requirements.iter().cloned());
             }
         }
         Ok(())
